@@ -43,6 +43,7 @@ func init() {
 }
 
 func runC29(c *core.Ctx) {
+	helperInline(c.Prog, "", nil) // declaration index (named goroutine bodies)
 	c.Rule("LOOPCLOSURE", "no function literal that outlives its iteration uses a shared loop variable")
 	checkLoopClosures(c, "LOOPCLOSURE", []string{"cmd", "plugins", "datasources", "execution", "logical", "physical", "optimizer", "outputs", "functions", "aggregates", "table_valued_functions", "config", "helpers", "parser", "octosql", "telemetry"})
 	c.Rule("CLOSE", "join producer goroutines always close their channel last")
@@ -299,6 +300,7 @@ func firstWord(s string) string {
 
 func checkParserLocal(c *core.Ctx) {
 	p := c.Prog
+	helperInline(p, "", nil) // the declaration index that resolves `go worker(…)` to worker's body
 	n := 0
 	for _, fr := range p.AllFuncs("datasources/json") {
 		info := fr.Info()
